@@ -116,10 +116,18 @@ pub fn messy(rng: &mut Rng) -> Vec<u8> {
             10 => { t.extend_from_slice(b"Size ("); t.extend_from_slice(&n); t.extend_from_slice(rng.pick_str(&[") = 12x bytes", ") = 18446744073709551616 bytes", ") = -1 bytes"]).as_bytes()); }
             _ => t.extend_from_slice(rng.pick_str(&["garbage", "SHA1 name = abc", "$NetBSD: x $", "hello (world) = x", "\u{e9} (x) = y"]).as_bytes()),
         }
+        if rng.chance(1, 12) { t.push(b'\r'); }     // CRLF files: CR is a blank
         t.push(b'\n');
     }
     if rng.chance(1, 3) { t.pop(); }
     t
+}
+
+/// does the name start like a patch (the specification decides the real classification; this
+/// only keeps sizes off entries that are certainly patches)
+fn patch_shaped(n: &[u8]) -> bool {
+    let last = n.rsplit(|c| *c == b'/').next().unwrap_or(n);
+    last.starts_with(b"patch-") || last.starts_with(b"emul-")
 }
 
 pub fn build(rng: &mut Rng) -> Value {
@@ -127,8 +135,8 @@ pub fn build(rng: &mut Rng) -> Value {
     let mut used: Vec<Vec<u8>> = vec![];
     for _ in 0..rng.range(0, 5) {
         let patch = rng.chance(1, 3);
-        let n = name(rng, patch);
-        if used.contains(&n) { continue; }
+        let n = if !used.is_empty() && rng.chance(1, 6) { used[rng.below(used.len())].clone() } else { name(rng, patch) };
+        let patch = patch_shaped(&n);
         used.push(n.clone());
         let sums: Vec<Value> = (0..rng.range(if patch { 1 } else { 0 }, 3)).map(|_| json!([rng.range(1, 6), codes(&hash(rng))])).collect();
         let sz = if !patch && (sums.is_empty() || rng.chance(2, 3)) { json!([codes(&size(rng))]) } else { json!([]) };
